@@ -4,7 +4,7 @@
     PartialEq/Ord/Hash impls) and the dispatcher of the [z.*] ops.  No proofs here. *)
 From Coq Require Import ZArith List Bool String.
 From V Require Import Base.Int Base.IO Gen.DateTimeConsts Model.TimeDelta.
-From V Require Model.Date Model.Time.
+From V Require Model.Date Model.Time Model.Show.
 From V Require Export Model.DateTime.
 Import ListNotations.
 Open Scope Z_scope.
@@ -104,6 +104,18 @@ Definition run (op : bytes) (args : list val) : val :=
     | _ => VBad end
   else if op_is op "z.nutc" then z_1 (fun x => enc_ndt (naive_utc x))
   else if op_is op "z.nlocal" then z_1 (fun x => val_of_R enc_ndt (naive_local x))
+  else if op_is op "z.show" then
+    match args with
+    | [a; VInt form] =>
+        match dec_dtz a with
+        | Some x =>
+            if form =? 0 then val_of_R VStr (Show.to_text (Show.dtz_display false [] x))
+            else if form =? 1 then val_of_R VStr (Show.to_text (Show.dtz_debug false [] x))
+            else VBad
+        | None => VBad
+        end
+    | _ => VBad
+    end
   else if op_is op "z.acc" then z_1 (fun x => val_of_R (fun v => v) (dz_acc x))
   else if op_is op "z.time" then z_1 (fun x => val_of_R Time.enc_time (dz_time x))
   else if op_is op "z.datenaive" then z_1 (fun x => val_of_R enc_date (dz_date_naive x))
